@@ -697,6 +697,9 @@ pub struct Knobs {
     /// identifiers that stress name handling: `$` in names, one identifier used for a
     /// variable in one scope and a signal in another (C14, C01 only)
     pub odd_names: bool,
+    /// rare but legal shapes: component arrays, multi-dimensional arrays, `_` in tuple
+    /// assignments, `<--` named inputs, long identifiers, non-ASCII log strings
+    pub rare_shapes: bool,
     /// literals are drawn modulo this prime family: 0 = bn254
     pub prime: usize,
 }
@@ -735,6 +738,7 @@ impl Knobs {
             array_init_permille: 900,
             odd_permille: 0,
             odd_names: false,
+            rare_shapes: b(1, 3),
             max_stmts: 2 + rng.usize(14),
             max_depth: rng.usize(4),
             expr_depth: 1 + rng.usize(3),
@@ -1201,7 +1205,7 @@ impl<'a> Ctx<'a> {
                     let mut args = Vec::new();
                     for _ in 0..self.rng.usize(3) {
                         if self.rng.chance(1, 3) {
-                            args.push(LogArg::Str("value".into()));
+                            args.push(LogArg::Str(if self.k.rare_shapes && self.rng.chance(1, 2) { "wert é∑π ✓".into() } else { "value".into() }));
                         } else {
                             args.push(LogArg::E(self.expr(1, if self.in_function { 0 } else { 1 })));
                         }
@@ -1275,7 +1279,7 @@ impl<'a> Ctx<'a> {
         let ed = self.k.expr_depth;
         let can_nest = depth < self.k.max_depth;
         for _ in 0..4 {
-            match self.rng.usize(17) {
+            match self.rng.usize(18) {
                 0 | 1 => {
                     // var declaration
                     let mut items = Vec::new();
@@ -1407,6 +1411,11 @@ impl<'a> Ctx<'a> {
                 }
                 9 if self.k.tuples && !self.in_function => {
                     if let Some(s) = self.tuple_stmt() {
+                        return s;
+                    }
+                }
+                15 if self.k.rare_shapes && depth == 0 => {
+                    if let Some(s) = self.rare_stmt() {
                         return s;
                     }
                 }
@@ -1603,6 +1612,80 @@ impl<'a> Ctx<'a> {
         Some(Stmt::Raw(toks))
     }
 
+    fn rare_stmt(&mut self) -> Option<Stmt> {
+        self.fresh += 1;
+        let id = self.fresh;
+        let mut stmts: Vec<Stmt> = Vec::new();
+        match self.rng.usize(6) {
+            0 | 4 | 5 if !self.in_function && !self.reg.templates.is_empty() => {
+                // an array of components filled in a loop
+                let ti = self.rng.usize(self.reg.templates.len());
+                let t = self.reg.templates[ti].clone();
+                if t.inputs.iter().any(|p| !p.dims.is_empty()) {
+                    return None;
+                }
+                let name = format!("cs{id}");
+                let args: Vec<String> = (0..t.params.len()).map(|_| "2".to_string()).collect();
+                let mut src = format!("component {name} [ 2 ] ; for ( var ci{id} = 0 ; ci{id} < 2 ; ci{id} ++ ) {{ {name} [ ci{id} ] = {} ( {} ) ;", t.name, args.join(" , "));
+                for p in &t.inputs {
+                    let e = self.sig_read().map(|e| {
+                        let mut toks = Vec::new();
+                        expr_tokens(&e, &mut toks);
+                        toks.join(" ")
+                    }).unwrap_or_else(|| "1".into());
+                    src.push_str(&format!(" {name} [ ci{id} ] . {} <== {e} ;", p.name));
+                }
+                src.push_str(" }");
+                if let Some(o) = t.outputs.iter().find(|o| o.dims.is_empty()) {
+                    src.push_str(&format!(" {name} [ 0 ] . {} === {name} [ 1 ] . {} ;", o.name, o.name));
+                }
+                if !self.refs.contains(&t.name) {
+                    self.refs.push(t.name.clone());
+                }
+                return Some(Stmt::Raw(src.split_whitespace().map(|s| s.to_string()).collect()));
+            }
+            1 => {
+                // a two-dimensional local array
+                let name = format!("mat{id}");
+                let e1 = self.expr(1, 0);
+                let e2 = self.expr(1, 0);
+                stmts.push(Stmt::Decl { kw: DeclKw::Var, items: vec![DeclItem { name: name.clone(), dims: vec![Expr::Num("2".into()), Expr::Num("2".into())], init: None }], init_op: "=" });
+                let cell = |i: usize, j: usize| Expr::Access(name.clone(), vec![Acc::Idx(Expr::Num(format!("{i}"))), Acc::Idx(Expr::Num(format!("{j}")))]);
+                stmts.push(Stmt::Assign { lhs: cell(0, 1), op: "=", rhs: e1, reversed: false });
+                stmts.push(Stmt::Assign { lhs: cell(1, 0), op: "=", rhs: Expr::Infix(Box::new(cell(0, 1)), "+", Box::new(e2)), reversed: false });
+                let t = self.new_var_name();
+                self.declare_var(&t, 0, 0);
+                stmts.push(Stmt::Decl { kw: DeclKw::Var, items: vec![DeclItem { name: t, dims: vec![], init: Some(cell(1, 0)) }], init_op: "=" });
+            }
+            2 => {
+                // a tuple assignment that skips one element
+                let (lhs, _) = self.scalar_var_lhs()?;
+                let e1 = self.expr(1, 0);
+                let e2 = self.expr(1, 0);
+                let (l, r) = if self.rng.chance(1, 2) { (vec![lhs, Expr::Underscore], vec![e1, e2]) } else { (vec![Expr::Underscore, lhs], vec![e1, e2]) };
+                if self.in_function {
+                    return None;
+                }
+                stmts.push(Stmt::Assign { lhs: Expr::Tuple(l), op: "=", rhs: Expr::Tuple(r), reversed: false });
+            }
+            _ => {
+                // a very long identifier
+                let name = format!("a_rather_long_identifier_that_goes_on_and_on_and_on_for_a_while_{id}");
+                let e = self.expr(1, 0);
+                self.declare_var(&name, 0, 0);
+                stmts.push(Stmt::Decl { kw: DeclKw::Var, items: vec![DeclItem { name, dims: vec![], init: Some(e) }], init_op: "=" });
+            }
+        }
+        if stmts.is_empty() {
+            return None;
+        }
+        let mut toks = Vec::new();
+        for s in &stmts {
+            stmt_tokens(s, &mut toks);
+        }
+        Some(Stmt::Raw(toks))
+    }
+
     fn component_block(&mut self) -> Option<Stmt> {
         // component c = T(args); c.in <== e; ...   (flattened into a block-less sequence
         // is not possible from one Stmt, so emit a Raw-free Block only when nested;
@@ -1697,7 +1780,8 @@ impl<'a> Ctx<'a> {
             .map(|p| {
                 let e = self.expr(1, 1);
                 if named {
-                    (Some((p.name.clone(), "<==")), e)
+                    let op = if self.k.rare_shapes && self.rng.chance(1, 3) { "<--" } else { "<==" };
+                    (Some((p.name.clone(), op)), e)
                 } else {
                     (None, e)
                 }
